@@ -363,6 +363,34 @@ def run(ctx) -> None:
            "'command.arguments' keeps naming the unreplicated producer, and get_component_configuration layers that override back on top - on "
            "that platform all N copies consume 'stage0.Simulate/..', a component that no longer exists" % (sorted(fields), sorted(REQUIRED - fields)),
            construct="compile_component_replica: replace_strings covers the component")
+    # the in-place rewrite works on a DEEP copy: replace_strings(.., in_place=True) rewrites strings inside nested containers, so on a
+    # shallow copy the first replica rewrites 'Gen/out.dat:copy' inside executors.pre[0] for all of them (and for the caller's component) -
+    # every later replica finds nothing left to rewrite and stages in replica 0's data (seed C03-14)
+    from vlib import flow as _flow10
+    for fn10 in (rep, m.func("FlowIR.compile_component_aggregate")):
+        cfg10 = CFG(fn10)
+        for c in source.calls_in(fn10, include_nested=False):
+            if last_attr(c) != "replace_strings" or not c.args or not isinstance(c.args[0], ast.Name):
+                continue
+            if not any(k.arg == "in_place" and isinstance(k.value, ast.Constant) and k.value.value is True for k in c.keywords):
+                continue
+            at = [n for n in cfg10.nodes if n.ast is not None and n.kind == "stmt" and any(c is x for x in ast.walk(n.ast))]
+            ctx.require(bool(at), "cannot locate the CFG node of %s" % short(c, 60))
+            nm = c.args[0].id
+            shallow = []
+            for d in _flow10.reaching_defs(cfg10, nm).get(at[0].id, frozenset()):
+                v = _flow10.def_value(cfg10, d, nm) if d >= 0 else None
+                deep = isinstance(v, ast.Call) and (call_name(v) or "").split(".")[-1] in ("deep_copy", "deepcopy")
+                again = isinstance(v, ast.Call) and last_attr(v) == "replace_strings"      # the result of an earlier rewrite of the same object
+                if not (deep or again):
+                    shallow.append(v)
+            ctx.ob("C03.R10-replica-rewrite-covers-the-component", c, not shallow,
+                   "%s rewrites in place a deep copy of the component" % fn10.name if not shallow else
+                   "%s rewrites strings in place (replace_strings(.., in_place=True)) in an object that is not a deep copy of the component (%s): "
+                   "nested containers (executors.pre[..], resourceManager.<backend>) are shared by all N copies and by the caller's description, the "
+                   "first copy rewrites 'Gen/out.dat:copy' to 'stage0.Gen0/..' for every copy - copy i no longer consumes from copy i"
+                   % (fn10.name, short(shallow[0], 60) if shallow[0] is not None else "the parameter itself"),
+                   construct="%s: in-place rewrite <- deep copy" % fn10.name)
     p_replica = params[2]
     names = _fmt_assign(rep, lambda t: isinstance(t, ast.Subscript) and isinstance(t.slice, ast.Constant) and t.slice.value == "name")
     prods = _fmt_assign(cref, lambda t: isinstance(t, ast.Name) and t.id == "producer")
